@@ -155,8 +155,9 @@ def check_accessors(ctx, tu, info):
             rets = f.return_nodes()
             vals = []
             for r in rets:
-                v = f.value_source(f.kids(r)[0])
-                vals.append((r, v))
+                alts = f.value_alternatives(f.kids(r)[0])
+                for v in alts:
+                    vals.append((r if len(alts) == 1 else v, v))      # an arm of `c ? a : b` is a result site of its own
             inline_ret = [r for r, v in vals if 'buffer' in fields_in(path(f, f.strip_all_casts(v))) and not any(f.is_call(d) and (f.callee(d) or {}).get('name') == 'getAddress' for d in [v] + f.descendants(v))]
             heap_ret = [r for r, v in vals if any(f.is_call(d) and (f.callee_key(d) or '').endswith('LargeData::getAddress') for d in [v] + f.descendants(v))]
             ok = len(inline_ret) == 1 and len(heap_ret) == 1
